@@ -258,7 +258,7 @@ func genC16(gm *GoModel) {
 	npos := 6 // mutated positions per (type, version); 0 = every position
 	win := 1  // mutation window
 	if thorough {
-		k, npos, win = 4, 16, 1
+		k, npos, win = 3, 6, 1
 	}
 	k = envInt("KMSGGEN_K", k)
 	npos = envInt("KMSGGEN_NPOS", npos)
@@ -331,8 +331,12 @@ func genC16(gm *GoModel) {
 					f = fv
 				}
 			}
-			nDecl = fmt.Sprintf("\tn := verifChoose(%d)\n", f+k+1)
-			nDesc = fmt.Sprintf("n<%d", f+k+1)
+			kk := k
+			if s.HasVersionField && kk > 1 {
+				kk-- // the two version bytes are symbolic as well and multiply the layouts explored
+			}
+			nDecl = fmt.Sprintf("\tn := verifChoose(%d)\n", f+kk+1)
+			nDesc = fmt.Sprintf("n<%d", f+kk+1)
 		}
 		unsafeExpr := "verifChoose(2) == 1"
 		if !thorough {
